@@ -30,6 +30,7 @@ class Spec:
         self.now = Fr(0)           # lower bound of physical time known from the script/events
         self.last = Fr(0)          # time of the last observed activity
         self.halves = 0
+        self.wraps = 0
         self.batch = []            # AppClock: entries taken out at the current tick, not yet awakened
         self.flush_at = None
         self.paused = None         # a task stopped in the middle of its step (atom `!`)
@@ -56,6 +57,19 @@ class Spec:
         t = self.clock[k]['tempo']
         return b if t is None else (b - t[1]) / t[0] + t[2]
 
+    def callee(self, task):
+        """what a sched call queues: the task object, or a NEW wrapper when `task` is a plain function
+        (every scheduling call of a plain function is a task of its own)"""
+        t = self.tasks.get(task)
+        if t and t['kind'] == 'P':
+            self.wraps += 1
+            return (task, self.wraps)
+        return task
+
+    @staticmethod
+    def base(inst):
+        return inst[0] if isinstance(inst, tuple) else inst
+
     def insert(self, k, key, task, at, not_before=None):
         self.seq += 1
         self.clock[k]['pending'][task] = (key, self.seq, at)
@@ -68,12 +82,12 @@ class Spec:
         if w[0] in ('s', 'q', 'T', 'E') and c['stopped']:
             return 'ClockNotRunning'
         if w[0] == 's':
-            self.insert(k, F(w[1]), int(w[2]), now)
+            self.insert(k, F(w[1]), self.callee(int(w[2])), now)
         elif w[0] == 'q':
             if k == 'a':
-                self.insert(k, now + F(w[1]), int(w[2]), now)
+                self.insert(k, now + F(w[1]), self.callee(int(w[2])), now)
             else:
-                self.insert(k, self.s2b(k, logical) + F(w[1]), int(w[2]), now)
+                self.insert(k, self.s2b(k, logical) + F(w[1]), self.callee(int(w[2])), now)
         elif w[0] == 'c':
             if not c['stopped']:
                 c['pending'].clear()
@@ -103,14 +117,14 @@ class Spec:
             t['dead'] = True
         return ops, res
 
-    def run_beh(self, k, task, key, due, ops, res):
+    def run_beh(self, k, task, key, due, ops, res, inst=None):
         """what an awake leaves behind: its calls (up to a `!` stop), then its result"""
         c = self.clock[k]
         raised = False
         for j, a in enumerate(ops):
             p = a.split(':')
             if p[0] == '!':
-                self.paused = (k, task, key, due, ops[j + 1:], res)
+                self.paused = (k, task, key, due, ops[j + 1:], res, inst)
                 if k == 'a':
                     self.app_lenient = True
                 return
@@ -130,15 +144,15 @@ class Spec:
         elif res == 'r:inf':
             pass                      # an infinite delta means "never", as in sched()
         elif res[0] == 'r':
-            d = F(res[2:])
+            d = F(res.partition(':')[2])       # (r: a number, ri: an IntEnum member, rf: a float subclass)
             if not c['stopped']:
-                self.insert(k, (self.now + d) if k == 'a' else (key + d), task, self.now)
+                self.insert(k, (self.now + d) if k == 'a' else (key + d), task if inst is None else inst, self.now)
 
     def do_resume(self):
         while self.paused is not None:      # (a step stopped twice goes on through both stops)
-            k, task, key, due, ops, res = self.paused
+            k, task, key, due, ops, res, inst = self.paused
             self.paused = None
-            self.run_beh(k, task, key, due, ops, res)
+            self.run_beh(k, task, key, due, ops, res, inst)
         self.last = self.now
         self.flush_at = k           # the waiting calls get the lock when this clock's thread goes to sleep
 
@@ -149,13 +163,14 @@ class Spec:
             # may not be awakened before `called + delay` (seconds clocks)
             nb = called + F(w[1]) if (w[0] == 'q' and k in ('s', 'a')) else None
             self.do_op(k, w, self.now, self.now)
-            if w[0] in ('s', 'q') and int(w[2]) in self.clock[k]['pending']:
-                self.clock[k]['nb'][int(w[2])] = nb
+            newest = max(self.clock[k]['pending'].items(), key=lambda p: p[1][1], default=(None, None))[0]
+            if w[0] in ('s', 'q') and newest is not None and self.base(newest) == int(w[2]):
+                self.clock[k]['nb'][newest] = nb
                 if w[0] == 'q':
                     # the property fixes the scheduled time only up to [time of the call, time the lock was
                     # obtained] + delay; the task itself tells which one it was
                     lo = (called if k == 'a' else self.s2b(k, called)) + F(w[1])
-                    self.clock[k]['range'][int(w[2])] = (lo, self.clock[k]['pending'][int(w[2])][0])
+                    self.clock[k]['range'][newest] = (lo, self.clock[k]['pending'][newest][0])
         self.deferred = []
 
     def bad(self, i, what, sig):
@@ -178,7 +193,7 @@ class Spec:
                 continue          # no final idle run in this (shrunk) script
             for task, (key, _, at) in c['pending'].items():
                 if self.b2s(k, key) <= self.last_run_at[0]:
-                    return {'what': f'task {task} scheduled on clock {k} for {fr(self.b2s(k, key))} was never '
+                    return {'what': f'task {self.base(task)} scheduled on clock {k} for {fr(self.b2s(k, key))} was never '
                                     f'awakened although time reached {fr(self.now)} and every thread was run',
                             'signature': f'c08:never-awakened:{"app" if k == "a" else "cond"}'}
         return None
@@ -306,20 +321,23 @@ class Spec:
                 if not self.batch:
                     return self.bad(i, f'task {task} awakened on AppClock but nothing is due '
                                        '(awakened twice, early, or after clear)', 'c08:not-pending:app')
-                key, seq, t0, at = self.batch.pop(0)
+                key, seq, inst, at = self.batch.pop(0)
+                t0 = self.base(inst)
                 if t0 != task:
                     return self.bad(i, f'task {task} awakened on AppClock, but task {t0} (time {fr(key)}, call #{seq}) '
                                        'is the earliest one due', 'c08:order:app')
             else:
-                if task not in c['pending']:
+                cands = [x for x in c['pending'] if self.base(x) == task]
+                if not cands:
                     return self.bad(i, f'task {task} awakened on {k} but it is not pending there '
                                        '(awakened twice, or after clear/stop)', f'c08:not-pending:{kind}')
-                key, seq, at = c['pending'].pop(task)
+                inst = min(cands, key=lambda x: c['pending'][x][:2])
+                key, seq, at = c['pending'].pop(inst)
                 for t2, (k2, s2, _) in c['pending'].items():
                     if (k2, s2) < (key, seq):
                         return self.bad(i, f'task {task} (time {fr(key)}, call #{seq}) awakened on {k} before task {t2} '
                                            f'(time {fr(k2)}, call #{s2})', f'c08:order:{kind}')
-            rng_ = c['range'].pop(task, None)
+            rng_ = c['range'].pop(inst, None)
             if rng_ is not None:
                 obs = beats if c['tempo'] is not None else secs
                 if not (rng_[0] <= obs <= rng_[1]):
@@ -328,7 +346,7 @@ class Spec:
                                        f'[{fr(rng_[0])}, {fr(rng_[1])}] = [time of the call + delay, time the lock was obtained + delay]',
                                     'c08:early:outside-call')
                 key = obs
-            nb = c['nb'].pop(task, None)
+            nb = c['nb'].pop(inst, None)
             if nb is not None and now < nb:
                 return self.bad(i, f'task {task} on {k} awakened at {fr(now)}, before the time of the scheduling call '
                                    f'plus its delay ({fr(nb)}): the call was made from outside any routine while a '
@@ -351,7 +369,7 @@ class Spec:
                                     f'c08:late:{kind}')
             self.now = now
             ops, res = self.next_beh(task)
-            self.run_beh(k, task, key, due, ops, res)
+            self.run_beh(k, task, key, due, ops, res, inst)
             self.last = self.now
         if self.expect_err is not None:
             return self.bad(i, f'raising task {self.expect_err} was not logged', 'c08:error-not-logged')
@@ -370,7 +388,7 @@ class Spec:
                     continue
                 for task, (key, _, at) in c['pending'].items():
                     if self.b2s(k, key) + run_late <= start + F(w[1]):
-                        return self.bad(i, f'task {task} on {k} due {fr(self.b2s(k, key))} still pending at '
+                        return self.bad(i, f'task {self.base(task)} on {k} due {fr(self.b2s(k, key))} still pending at '
                                            f'{fr(self.now)} after every sleeping thread was woken on time',
                                         f'c08:overdue:{"app" if k == "a" else "cond"}')
         return None
@@ -447,6 +465,8 @@ class Check(common.Check):
                 r = G.random()
                 if r < 0.03:
                     res = 'r:inf'
+                elif r < 0.10:
+                    res = G.choice(['ri:1', 'ri:0', 'ri:2', 'rf:1/8', 'rf:1/2', 'rf:0'])    # number SUBCLASSES
                 elif r < 0.55:
                     res = 'r:' + fr(G.choice([Fr(0), Fr(1, 8), Fr(1, 8), Fr(1, 4), Fr(1, 2), Fr(1), Fr(3, 8)]))
                 elif r < 0.78:
@@ -456,7 +476,7 @@ class Check(common.Check):
                 else:
                     res = G.choice(['n', 'bt', 'bf', 'bf', 'o'])      # only a number re-schedules
                 behs.append(' '.join(atoms + [res]))
-            lines.append(f'task {t} {G.choice("FFFR")} ' + ' | '.join(behs))
+            lines.append(f'task {t} {G.choice("FFFRP")} ' + ' | '.join(behs))
         for i in range(ntempo):
             lines.append(f'new {i} {fr(G.choice([Fr(1,2), Fr(1), Fr(2), Fr(4)]))}' + (' p' if G.random() < 0.3 else ''))
         now = Fr(0)
@@ -583,12 +603,29 @@ class Check(common.Check):
         lines += [f'run 2 {fr(G.choice([Fr(0), Fr(1, 64)]))}', f'op m t0 q 1/2 0', f'run {BIG} 0', 'dump']
         return lines
 
+    def gen_same_callable(self, G):
+        """the same plain function scheduled k times while earlier schedulings are pending (k wake-ups),
+        next to a Function object scheduled twice (one task: the second call moves it)"""
+        k = G.choice(['s', 'a', 't0'])
+        lines = ['task 0 P ' + G.choice(['d', 'd', 'ri:1 | d', 'rf:1/4 | d', 'x']), 'task 1 F d', 'task 2 P d | r:1/8 | d',
+                 'new 0 ' + fr(G.choice([Fr(1), Fr(2)]))]
+        for _ in range(G.randint(2, 4)):
+            lines.append(f'op {G.choice("mo")} {k} q {fr(G.choice([Fr(1, 8), Fr(1, 4), Fr(1, 4), Fr(1, 2), Fr(1)]))} 0')
+        for _ in range(2):
+            kk = G.choice(['s', 'a', 't0'])
+            lines.append(f'op m {kk} q {fr(G.choice([Fr(1, 4), Fr(1)]))} 1')
+            lines.append(f'op m {kk} q {fr(G.choice([Fr(1, 8), Fr(1, 2)]))} 2')
+        lines += [f'run 1/4 {fr(G.choice([Fr(0), Fr(1, 64)]))}', 'dump', f'op m {k} q 0 0', f'op m {k} q 0 0',
+                  f'run 3 0', 'fin', 'cont a', f'run {BIG} 0', 'dump']
+        return lines
+
     def gen(self, rng, n):
         out = []
         for _ in range(n):
             r = rng.random()
             out.append(self.gen_tempo_batch(rng) if r < 0.08 else self.gen_midstep(rng) if r < 0.18
                        else self.gen_cmdperiod(rng) if r < 0.24 else self.gen_etempo(rng) if r < 0.30
+                       else self.gen_same_callable(rng) if r < 0.36
                        else self.gen_one(rng))
         return out
 
